@@ -1,5 +1,6 @@
 import UtlsVerif.Line
 import UtlsVerif.HsLock
+import UtlsVerif.WrClose
 /-! Driver side of C26: the discipline predicate on the re-extracted skeleton (`c26_shape`) and
 the `caller_outcome` monitor on recorded concurrent histories (`c26_conc`, `c26_race`). -/
 namespace Drv.C26
@@ -46,22 +47,78 @@ def firstFailure (p : List Stmt) : Option (Nat × String) :=
     | some (i, s, why) => some (i, s!"{why}/path=fallthrough[0..{i})+{stmtName s}@{i}/caller=background")
     | none => none
 
+def parseW (s : String) : Option WrClose.WStmt :=
+  match s with
+  | "reg" => some .reg | "dec" => some .dec | "deferDec" => some .deferDec | "handshake" => some .handshake
+  | "lockOut" => some .lockOut | "unlockOut" => some .unlockOut | "deferUnlockOut" => some .deferUnlockOut
+  | "write" => some .write | "condRet" => some .condRet | "ret" => some .ret
+  | _ => none
+
+def parseC (s : String) : Option WrClose.CStmt :=
+  match s with
+  | "cas" => some .cas | "inflightRawClose" => some .inflightRawClose | "closeNotify" => some .closeNotify
+  | "rawClose" => some .rawClose | "ret" => some .ret
+  | _ => none
+
+def parseAt {α : Type} (f : String → Option α) (s : String) : Option (α × Nat) :=
+  match s.splitOn "@" with
+  | [k, l] => do
+    let st ← f k
+    let n ← l.toNat?
+    pure (st, n)
+  | _ => none
+
+/-- generic verdict for a skeleton: discipline holds, or the first failure with its source line -/
+def shapeVerdict {α : Type} (fn : String) (toks : List (α × Nat)) (ok : List α → Bool)
+    (diag : List α → Option (Nat × String)) (file : String) : Verdict :=
+  let p := toks.map (·.1)
+  let tag := s!"{fn},stmts={p.length}"
+  if ok p then .ok tag
+  else
+    match diag p with
+    | some (i, why) =>
+      let line := ((toks.drop i).head?.map (·.2)).getD 0
+      .propFail tag s!"{why}/{file}:{line}"
+    | none => .propFail tag "discipline-predicate-false"
+
 def shape (c : Case) : Verdict :=
+  let fn := c.input.getD "fn" "handshakeContext"
   match c.output.get "err" with
-  | some e => .propFail "unrecognised" s!"shape_unrecognised:{e}"
+  | some e => .propFail s!"{fn},unrecognised" s!"shape_unrecognised:{e}"
   | none =>
-    match (listOf (c.output.getD "prog" "-")).mapM parseTok with
-    | none => .bad "c26_shape: unparsable skeleton"
-    | some toks =>
-      let p := toks.map (·.1)
-      let tag := s!"stmts={p.length}"
-      if disc p then .ok tag
-      else
-        match firstFailure p with
-        | some (i, why) =>
-          let line := ((toks.drop i).head?.map (·.2)).getD 0
-          .propFail tag s!"{why}/u_conn.go:{line}"
-        | none => .propFail tag "discipline-predicate-false"
+    let toks := listOf (c.output.getD "prog" "-")
+    if fn = "Write" then
+      match toks.mapM (parseAt parseW) with
+      | none => .bad "c26_shape: unparsable Write skeleton"
+      | some ts => shapeVerdict fn ts WrClose.wdisc (fun p => WrClose.diagW p {} 0) "u_conn.go"
+    else if fn = "Close" then
+      match toks.mapM (parseAt parseC) with
+      | none => .bad "c26_shape: unparsable Close skeleton"
+      | some ts => shapeVerdict fn ts WrClose.cdisc (fun p => WrClose.diagC p {} 0) "conn.go"
+    else
+      match toks.mapM parseTok with
+      | none => .bad "c26_shape: unparsable skeleton"
+      | some ts => shapeVerdict fn ts disc firstFailure "u_conn.go"
+
+/-! ### blocked writer + Close (c26_wclose) -/
+
+def wclose (c : Case) : Verdict :=
+  let op := c.input.getD "op" "close"
+  let tag0 := s!"op={op},{if c.input.getD "wdl" "-1" = "-1" then "nodeadline" else "deadline"}"
+  match c.output.get "out" with
+  | some "timeout" => .propFail s!"{tag0},hang" "hang/case-deadline"
+  | some o => if o.startsWith "panic" then .propFail s!"{tag0},panic" s!"panic/{c.output.getD "msg" "-"}" else .bad s!"c26: {o}"
+  | none =>
+    let hs := c.output.getD "hs" "?"
+    let cr := c.output.getD "c" "?"
+    let wr := c.output.getD "w" "?"
+    let tag := s!"{tag0},stalled={c.output.getD "stalled" "?"}"
+    if hs ≠ "ok" then .diff tag "hs=ok"
+    else if cr = "hang" then .propFail tag s!"close_blocked_behind_in_flight_write/{op}-did-not-return-while-a-Write-was-blocked-in-the-transport"
+    else if cr.startsWith "panic" then .propFail tag s!"panic/{cr}"
+    else if wr = "hang" then .propFail tag "write_not_released/Write-still-blocked-after-Close-returned"
+    else if wr.startsWith "panic" then .propFail tag s!"panic/{wr}"
+    else .ok tag
 
 /-! ### histories -/
 
@@ -182,6 +239,6 @@ def hist (c : Case) : Verdict :=
       else .ok tag
 
 def families : List (String × (Case → Verdict)) :=
-  [("c26_shape", shape), ("c26_conc", hist), ("c26_race", hist)]
+  [("c26_shape", shape), ("c26_conc", hist), ("c26_race", hist), ("c26_wclose", wclose)]
 
 end Drv.C26
